@@ -8,7 +8,7 @@
    sorted-insertion tables).  "The restored container obeys its own property under every further operation list" - the
    composition with the refinement theorems of C07 / C08 / C09 / C01, on the real list / heap / ring / tree models - is
    in PropsComposeSeq.v and PropsComposeMap.v (C15_restored_obeys_<family>, C15_tree_decoders_agree). *)
-From VF Require Import Common.Base C09.Model C09.Spec C09.Proofs C09.Proofs2 C09.Check C15.Model C15.Spec C15.Proofs C15.Proofs2 C15.Proofs3 C15.Check.
+From VF Require Import Common.Base C09.Model C09.Spec C09.Proofs C09.Proofs2 C09.Check C15.Model C15.Spec C15.Proofs C15.Proofs2 C15.Proofs3 C15.ProofsRing C15.Check.
 From Coq Require Import Sorted.
 
 Definition codec_laws {E} (enc : E -> jval) (dec : jval -> option E) : Prop :=
@@ -53,6 +53,31 @@ Theorem C15_ring : forall E (enc : E -> jval) dec (zero : E) is_zero, codec_laws
   exists q', cb_unmarshal dec zero is_zero (cb_marshal enc zero q) (cb_fresh zero mx) = Some q' /\
              cb_values zero q' = cb_values zero q /\ CbInv q'.
 Proof. intros E enc dec zero is_zero [H1 H2] q mx Hm Hq Hs. exact (cb_roundtrip enc dec H1 H2 zero is_zero q mx Hm Hq Hs). Qed.
+
+(* ... and for a document of ANY length decoded into a fresh buffer of ANY capacity >= 1 (UnmarshalJSON enqueues the
+   decoded values one by one; Dequeue as repaired by 0021, i.e. without the zero-value test): the buffer holds the LAST
+   min(capacity, n) values, oldest first, in a ring that satisfies its invariant.  The document may come from a ring
+   of another capacity (cb_marshal enc zero q = seq_marshal enc (cb_values zero q)) or from an array list
+   (al_marshal enc a = seq_marshal enc (al_abs a)). *)
+Theorem C15_ring_any_length : forall E (enc : E -> jval) dec (zero : E) is_zero,
+  (forall e, dec (enc e) = Some e) -> (forall v, is_zero v = false) -> forall mx, 1 <= mx -> forall l : list E,
+  exists q', cb_unmarshal dec zero is_zero (seq_marshal enc l) (cb_fresh zero mx) = Some q' /\
+             cb_values zero q' = skipn (length l - mx) l /\ CbInv q'.
+Proof.
+  intros E enc dec zero is_zero Hd Hz mx Hm l.
+  destruct (cb_decode_any zero is_zero Hz mx Hm enc dec Hd l) as (q' & H1 & _ & H2 & H3). exists q'. auto.
+Qed.
+Theorem C15_ring_any_source : forall E (enc : E -> jval) dec (zero : E) is_zero,
+  (forall e, dec (enc e) = Some e) -> (forall v, is_zero v = false) -> forall mx, 1 <= mx ->
+  (forall q : cb, exists q', cb_unmarshal dec zero is_zero (cb_marshal enc zero q) (cb_fresh zero mx) = Some q' /\
+        cb_values zero q' = skipn (length (cb_values zero q) - mx) (cb_values zero q) /\ CbInv q') /\
+  (forall a : al, exists q', cb_unmarshal dec zero is_zero (al_marshal enc a) (cb_fresh zero mx) = Some q' /\
+        cb_values zero q' = skipn (length (al_abs a) - mx) (al_abs a) /\ CbInv q').
+Proof.
+  intros E enc dec zero is_zero Hd Hz mx Hm. split.
+  - intros q. exact (C15_ring_any_length E enc dec zero is_zero Hd Hz mx Hm (cb_values zero q)).
+  - intros a. exact (C15_ring_any_length E enc dec zero is_zero Hd Hz mx Hm (al_abs a)).
+Qed.
 
 (* D20: encoding the backing ring instead *)
 Theorem C15_ring_backing_refuted :
@@ -173,6 +198,8 @@ Print Assumptions C15_arraylist.
 Print Assumptions C15_arraylist_usable.
 Print Assumptions C15_arraylist_unclipped_refuted.
 Print Assumptions C15_ring.
+Print Assumptions C15_ring_any_length.
+Print Assumptions C15_ring_any_source.
 Print Assumptions C15_ring_backing_refuted.
 Print Assumptions C15_sets.
 Print Assumptions C15_linked_set.
